@@ -60,6 +60,7 @@ def run(ctx):
                 # should the library ever clean such data up, it must do so on its own copy); W = 1 is the shape in
                 # which a stacked array could alias the input
                 cfg.update({"nan_data": True, "fortran": False, "fail": None, "joint": bool(i % 10 == 9)})
+                cfg.pop("dtype", None)          # NaN needs a floating-point array
                 if i % 10 == 4:
                     cfg["W"] = 1
             cfgs.append(cfg)
